@@ -51,7 +51,7 @@ macro_rules! stream_case_3 {
         ps.push(&p0);
         ps.push(&p1);
         ps.push(&p2);
-        let mut diagnostics = Diagnostics::verif_with_capacity(4);
+        let mut diagnostics = Diagnostics::new();
         validate_parameters(&ps[..], &mut diagnostics);
         let ds = diagnostics.into_inner();
         let streamed = $s0 as usize + $s1 as usize + $s2 as usize;
